@@ -182,6 +182,7 @@ class Program:
         # restore the reviewed decomposition into functions (new helpers are inlined back into their callers)
         from . import inline as _inline
         self.normalisation_notes = _inline.normalise(self.modules)
+        self.not_restored = list(_inline.LEFTOVER)
         for mod in self.modules.values():
             for st in mod.tree.body:
                 self._scan_toplevel(mod, st)
